@@ -51,6 +51,10 @@ func drain[I any](sr *schema.StreamReader[I]) (I, error) {
 		}
 		chunks = append(chunks, any(c))
 	}
+	if len(chunks) == 0 {
+		// a loop over Recv that sees EOF at once: the node works on the zero value
+		return zero, nil
+	}
 	v, err := joinVals(chunks)
 	if err != nil {
 		return zero, fmt.Errorf("harness: the chunks handed to the node do not concatenate: %w", err)
